@@ -21,7 +21,8 @@ type c04Last struct {
 	Entry  string `json:"entry"`
 }
 
-var c04LastColls = []string{"empty", "nil", "missing", "rejected", "inner-empty", "one"}
+// else-loop: the v-else sibling of the (empty / non-empty) loop is a loop itself
+var c04LastColls = []string{"empty", "nil", "missing", "rejected", "inner-empty", "one", "else-loop-after-empty", "else-loop-after-items", "else-empty-loop-after-empty"}
 var c04LastBefore = []string{"text", "indent", "text+el"}
 var c04LastEls = []string{"b", "template", "li"}
 
@@ -76,6 +77,24 @@ func c04ExecLast(c c04Case, o *core.Obs) {
 		inner := strings.ReplaceAll(loop, "in xs", "in r.cells")
 		tpl = `<section data-m="w"><` + parent + ` v-for="r in rows" data-m="row">` + before + inner + `</` + parent + `></section><p data-m="after">after</p>`
 	}
+	elseWant := -1
+	if strings.HasPrefix(l.Coll, "else-") {
+		data["ys"] = []any{"p", "q"}
+		switch l.Coll {
+		case "else-loop-after-empty":
+			data["xs"] = []any{}
+			elseWant = 2
+		case "else-loop-after-items":
+			data["xs"] = []any{7}
+			elseWant = 0
+		default:
+			data["xs"] = []any{}
+			data["ys"] = []any{}
+			elseWant = 0
+		}
+		el := map[string]string{"b": "b", "template": "b", "li": "li"}[l.El]
+		tpl = `<` + parent + ` data-m="w">` + before + loop + `<` + el + ` v-else v-for="y in ys" data-m="alt">{{ y }}</` + el + `></` + parent + `><p data-m="after">after</p>`
+	}
 	var out string
 	var err error
 	switch l.Entry {
@@ -98,7 +117,7 @@ func c04ExecLast(c c04Case, o *core.Obs) {
 		return
 	}
 	want := 0
-	if l.Coll == "one" {
+	if l.Coll == "one" || l.Coll == "else-loop-after-items" {
 		want = 1
 	}
 	doc := oracle.ParseAuto(out)
@@ -109,6 +128,12 @@ func c04ExecLast(c c04Case, o *core.Obs) {
 	if strings.Contains(out, "{{") || strings.Contains(out, "v-for") || strings.Contains(out, ":data-x") {
 		o.Fail(c, sig("unevaluated-source-in-output"), "template source (mustache / v-for / bound attribute) appears in the output\n%s", detail)
 		return
+	}
+	if elseWant >= 0 {
+		if got := len(doc.ByAttr("data-m", "alt")); got != elseWant {
+			o.Fail(c, sig("else-loop-instances"), "the v-else sibling is a loop over %d item(s) and must render %d instance(s), the output holds %d\n%s", len(data["ys"].([]any)), elseWant, got, detail)
+			return
+		}
 	}
 	if len(doc.ByAttr("data-m", "after")) != 1 {
 		o.Fail(c, sig("sibling-after-lost"), "the element after the parent is missing or repeated\n%s", detail)
